@@ -428,3 +428,626 @@ Proof.
     + apply NoDup_aremove; auto.
     + rewrite keys_aremove. tauto.
 Qed.
+
+Lemma sumres_app a b : sumres (a ++ b) = sumres a + sumres b.
+Proof. induction a as [|[h hd] r IH]; simpl; [lia|]. rewrite IH; lia. Qed.
+
+Lemma inv_insert_by s k d w f s' r t : inv s -> insert_by s k d w f = (s', r, t) -> inv s'.
+Proof.
+  intros Hi. unfold insert_by.
+  destruct (match d with Some d0 => negb (d0 <=? cap s) | None => false end).
+  - intros H; inversion H; subst; auto.
+  - cbv zeta. pose proof (inv_lru_remove s k Hi) as H1.
+    destruct f.
+    + intros H; inversion H; subst. apply inv_set_files; auto.
+    + destruct (make_space _ _) as [ok s3] eqn:MS.
+      apply inv_make_space in MS as [H3 Hb]; [|apply inv_set_files; exact H1].
+      destruct ok; intros H; inversion H; subst.
+      * apply inv_tick, inv_lru_insert; auto.
+      * apply inv_set_files; auto.
+Qed.
+
+Lemma inv_prepare_add s k n s' r : inv s -> prepare_add s k n = (s', r) -> inv s'.
+Proof.
+  intros Hi. unfold prepare_add. destruct (make_space s n) as [ok s1] eqn:MS.
+  apply inv_make_space in MS as [[(Hm & Hc & Hnd & Hp) [Hh1 Hh2]] Hb]; auto.
+  destruct ok; intros H; inversion H; subst; clear H.
+  - specialize (Hb eq_refl). split; [unfold acct|unfold hwf]; simpl.
+    + rewrite sumres_app; simpl. repeat split; auto; lia.
+    + rewrite map_app; simpl. split.
+      * apply NoDup_snoc; auto. intros Hin; apply Hh2 in Hin; lia.
+      * intros h; rewrite in_app_iff; simpl; intros [H|[H|[]]]; [apply Hh2 in H; lia | lia].
+  - repeat split; auto.
+Qed.
+
+Lemma inv_write_tmp s h m s' r : inv s -> write_tmp s h m = (s', r) -> inv s'.
+Proof.
+  intros [(Hm & Hc & Hnd & Hp) [Hh1 Hh2]]. unfold write_tmp.
+  destruct (hlookup h (handles s)) as [hd|] eqn:E; intros H; inversion H; subst; clear H.
+  - split; [unfold acct|unfold hwf]; simpl; rewrite ?hset_ids.
+    + repeat split; auto. rewrite (sumres_hset h hd); auto.
+    + split; auto.
+  - repeat split; auto.
+Qed.
+
+Lemma inv_release s h hd : inv s -> hlookup h (handles s) = Some hd ->
+  inv (release (set_handles s (hremove h (handles s)) (next_h s)) hd).
+Proof.
+  intros [(Hm & Hc & Hnd & Hp) [Hh1 Hh2]] E. pose proof (sumres_hremove h hd _ Hh1 E) as Hs.
+  split; [unfold acct|unfold hwf]; simpl.
+  - repeat split; auto; lia.
+  - split; [apply NoDup_hremove; auto|]. intros h'; rewrite hremove_ids; intros [_ H]; auto.
+Qed.
+
+Lemma inv_commit s h s' r t : inv s -> commit s h = (s', r, t) -> inv s'.
+Proof.
+  intros Hi. unfold commit. destruct (hlookup h (handles s)) as [hd|] eqn:E.
+  - cbv zeta. pose proof (inv_release s h hd Hi E) as H1.
+    destruct (make_space _ _) as [ok s2] eqn:MS. apply inv_make_space in MS as [H2 Hb]; auto.
+    destruct ok; intros H; inversion H; subst; clear H; auto.
+    apply inv_lru_insert; [apply inv_tick, inv_set_files; auto|]. simpl. apply Hb; auto.
+  - intros H; inversion H; subst; auto.
+Qed.
+
+Lemma inv_abandon s h s' r : inv s -> abandon s h = (s', r) -> inv s'.
+Proof.
+  intros Hi. unfold abandon. destruct (hlookup h (handles s)) as [hd|] eqn:E;
+    intros H; inversion H; subst; auto. apply inv_release; auto.
+Qed.
+
+Lemma inv_lru_get s k sz : inv s -> alookup k (index s) = Some sz ->
+  inv (set_lru s (aremove k (index s) ++ [(k, sz)]) (measure s)).
+Proof.
+  intros [(Hm & Hc & Hnd & Hp) Hh] E.
+  split; [|exact Hh]. unfold acct; simpl. pose proof (sumsz_aremove k sz _ Hnd E). repeat split; auto.
+  - rewrite sumsz_app; simpl; lia.
+  - rewrite keys_app; simpl. apply NoDup_snoc; [apply NoDup_aremove; auto | rewrite keys_aremove; tauto].
+Qed.
+
+Lemma inv_get s k s' r t : inv s -> get s k = (s', r, t) -> inv s'.
+Proof.
+  intros Hi. unfold get, lru_get. destruct (alookup k (index s)) as [sz|] eqn:E.
+  - pose proof (inv_lru_get s k sz Hi E) as H1.
+    match goal with |- context [alookup k (files ?x)] => destruct (alookup k (files x)) as [[fsz mt]|] end;
+      intros H; inversion H; subst; auto.
+  - intros H; inversion H; subst; auto.
+Qed.
+
+Lemma inv_remove s k s' r : inv s -> remove s k = (s', r) -> inv s'.
+Proof.
+  intros Hi. unfold remove. destruct (alookup k (index s)); [|intros H; inversion H; subst; auto].
+  cbv zeta. pose proof (inv_lru_remove s k Hi).
+  destruct (alookup k (files (lru_remove s k))); intros H'; inversion H'; subst; auto.
+Qed.
+
+Lemma inv_init_add s e : inv s -> inv (init_add s e).
+Proof.
+  intros Hi. destruct e as [k [sz mt]]. unfold init_add. destruct (is_temp k); [exact Hi|].
+  destruct (negb (sz <=? cap s)); [exact Hi|].
+  destruct (make_space s sz) as [ok s1] eqn:MS. apply inv_make_space in MS as [H1 Hb]; auto.
+  destruct ok; auto. apply inv_lru_insert; auto.
+Qed.
+
+Lemma inv_fold_init l : forall s, inv s -> inv (fold_left init_add l s).
+Proof. induction l; simpl; auto. intros s H. apply IHl, inv_init_add, H. Qed.
+
+Lemma inv_reopen s c : inv (reopen s c).
+Proof.
+  unfold reopen. apply inv_fold_init. split; [unfold acct|unfold hwf]; simpl.
+  - repeat split; try constructor; lia.
+  - split; [constructor|tauto].
+Qed.
+
+Lemma step_inv s o : inv s -> inv (fst (step s o)).
+Proof.
+  intros Hi. destruct o; simpl.
+  - destruct (insert_by s k (Some n) n false) as [[s' r] t] eqn:E. simpl. eapply inv_insert_by; eauto.
+  - destruct (insert_by s k None n fail) as [[s' r] t] eqn:E. simpl. eapply inv_insert_by; eauto.
+  - destruct (insert_by s k (Some n) n false) as [[s' r] t] eqn:E. simpl. eapply inv_insert_by; eauto.
+  - destruct (prepare_add s k n) as [s' r] eqn:E. simpl. eapply inv_prepare_add; eauto.
+  - destruct (write_tmp s h m) as [s' r] eqn:E. simpl. eapply inv_write_tmp; eauto.
+  - destruct (commit s h) as [[s' r] t] eqn:E. simpl. eapply inv_commit; eauto.
+  - destruct (abandon s h) as [s' r] eqn:E. simpl. eapply inv_abandon; eauto.
+  - destruct (get s k) as [[s' r] t] eqn:E. simpl. eapply inv_get; eauto.
+  - destruct (remove s k) as [s' r] eqn:E. simpl. eapply inv_remove; eauto.
+  - exact Hi.
+  - exact Hi.
+  - apply inv_reopen.
+Qed.
+
+Lemma run_inv ops : forall s, inv s -> inv (run s ops).
+Proof.
+  unfold run. induction ops as [|o r IH]; simpl; auto. intros s H. apply IH, step_inv, H.
+Qed.
+
+(* ====================================================================== *)
+(* D. transition shapes                                                    *)
+(* ====================================================================== *)
+
+(* every indexed entry exists on disk with the recorded size, and no other entry file exists *)
+Definition dagree (s : st) : Prop :=
+  forall k sz, alookup k (index s) = Some sz <-> exists mt, alookup k (files s) = Some (sz, mt).
+
+Definition newpart (k : key) (newi : option N) : list (key * N) :=
+  match newi with Some sz => [(k, sz)] | None => [] end.
+
+(* an op on key k: forgets k, evicts the prefix [pre] of what is left (deleting the files),
+   optionally re-adds k at the most-recent end; k's file becomes [newf] *)
+Record trans_k (s s' : st) (k : key) (pre : list (key * N)) (newi : option N) (newf : option (N * N)) : Prop := {
+  tk_idx : exists rest, aremove k (index s) = pre ++ rest /\ index s' = rest ++ newpart k newi;
+  tk_fk : alookup k (files s') = newf;
+  tk_fo : forall k', k' <> k ->
+            (In k' (keys pre) -> alookup k' (files s') = None) /\
+            (~ In k' (keys pre) -> alookup k' (files s') = alookup k' (files s));
+  tk_clock : clock s <= clock s' <= clock s + 1
+}.
+
+Definition cons (s s' : st) (newi : option N) (newf : option (N * N)) : Prop :=
+  match newi, newf with
+  | Some a, Some (b, mt) => a = b /\ mt = clock s + 1 /\ clock s' = clock s + 1
+  | None, None => True
+  | _, _ => False
+  end.
+
+(* an op that only evicts the prefix [pre] *)
+Record trans_ev (s s' : st) (pre : list (key * N)) : Prop := {
+  te_idx : index s = pre ++ index s';
+  te_f : forall k', (In k' (keys pre) -> alookup k' (files s') = None) /\
+                    (~ In k' (keys pre) -> alookup k' (files s') = alookup k' (files s));
+  te_clock : clock s' = clock s
+}.
+
+Lemma trans_ev_same s s' : index s' = index s -> files s' = files s -> clock s' = clock s -> trans_ev s s' [].
+Proof. intros H1 H2 H3. constructor; simpl; auto. rewrite H2. tauto. Qed.
+
+Lemma lru_remove_eq s k : exists m, lru_remove s k = set_lru s (aremove k (index s)) m.
+Proof.
+  unfold lru_remove. destruct (alookup k (index s)) eqn:E; eauto. exists (measure s).
+  rewrite aremove_notin; auto. destruct s; reflexivity.
+Qed.
+
+Lemma lru_insert_inv_eq s k v : inv s -> measure s + (pending_size s + v) <= cap s ->
+  lru_insert s k v = set_lru s (aremove k (index s) ++ [(k, v)]) (sumsz (aremove k (index s)) + v).
+Proof.
+  intros [(Hm & Hc & Hnd & Hp) Hh] Hv.
+  assert (Hle : sumsz (aremove k (index s)) <= measure s).
+  { destruct (alookup k (index s)) eqn:E.
+    - rewrite Hm, (sumsz_aremove k n (index s) Hnd E). lia.
+    - rewrite aremove_notin; auto. lia. }
+  apply lru_insert_spec; auto; lia.
+Qed.
+
+Lemma alookup_app_None {V} k (a b : list (key * V)) : alookup k (a ++ b) = None -> alookup k a = None /\ alookup k b = None.
+Proof. rewrite alookup_app. destruct (alookup k a); [discriminate|auto]. Qed.
+
+Lemma shape_insert_by s k d w f s' r t :
+  inv s -> (d = None \/ d = Some w) -> insert_by s k d w f = (s', r, t) ->
+  trans_ev s s' [] \/ exists pre newi newf, trans_k s s' k pre newi newf /\ cons s s' newi newf.
+Proof.
+  intros Hi Hd. unfold insert_by.
+  destruct (match d with Some d0 => negb (d0 <=? cap s) | None => false end).
+  { intros H; inversion H; subst. left. apply trans_ev_same; auto. }
+  cbv zeta. pose proof (inv_lru_remove s k Hi) as Hi1.
+  destruct (lru_remove_eq s k) as [m1 E1]. rewrite E1 in *.
+  destruct f.
+  { intros H; inversion H; subst; clear H. right. exists [], None, None. split; [|exact I]. constructor; simpl.
+    - exists (aremove k (index s)). rewrite app_nil_r; auto.
+    - apply alookup_aremove_eq.
+    - intros k' Hk. split; [tauto|]. intros _. apply alookup_aremove_neq; auto.
+    - lia. }
+  assert (Hsz : match d with Some d0 => d0 | None => w end = w) by (destruct Hd; subst; auto).
+  rewrite Hsz.
+  destruct (make_space _ w) as [ok s3] eqn:MS.
+  pose proof MS as MS2. apply inv_make_space in MS2 as [Hi3 Hb]; [|exact Hi1].
+  apply make_space_spec in MS as (pre & idx' & m' & -> & Hidx & Hm' & _ & _ & Hfail). simpl in *.
+  destruct ok.
+  - rewrite lru_insert_inv_eq by (auto; apply Hb; auto). simpl.
+    intros H; inversion H; subst; clear H. right.
+    assert (Hk : alookup k (pre ++ idx') = None) by (rewrite <- Hidx; apply alookup_aremove_eq).
+    apply alookup_app_None in Hk as [Hk1 Hk2].
+    exists pre, (Some w), (Some (w, clock s + 1)). split; [|simpl; auto]. constructor; simpl.
+    + exists idx'. split; [exact Hidx | rewrite (aremove_notin k idx') by auto; reflexivity].
+    + rewrite alookup_rmkeys_notin by (apply alookup_None; auto). apply alookup_ains_eq.
+    + intros k' Hk. split; intros Hin.
+      * apply alookup_rmkeys_in; auto.
+      * rewrite alookup_rmkeys_notin by auto. apply alookup_ains_neq; auto.
+    + lia.
+  - destruct Hi1 as [(Hm1 & _) _]. destruct (Hfail Hm1 eq_refl) as [-> Hs3].
+    simpl in *. intros H; inversion H; subst; clear H. right.
+    exists [], None, None. split; [|exact I]. constructor; simpl.
+    + exists (aremove k (index s)). rewrite app_nil_r. split; auto.
+    + apply alookup_aremove_eq.
+    + intros k' Hk. split; [tauto|]. intros _. rewrite alookup_aremove_neq by auto. apply alookup_ains_neq; auto.
+    + lia.
+Qed.
+
+Lemma shape_make_space s n ok s' : make_space s n = (ok, s') -> exists pre, trans_ev s s' pre.
+Proof.
+  intros MS. apply make_space_spec in MS as (pre & idx' & m' & -> & Hidx & _).
+  exists pre. constructor; simpl; auto. intros k'. split; intros Hin.
+  - apply alookup_rmkeys_in; auto.
+  - apply alookup_rmkeys_notin; auto.
+Qed.
+
+Lemma shape_prepare_add s k n s' r : prepare_add s k n = (s', r) -> exists pre, trans_ev s s' pre.
+Proof.
+  unfold prepare_add. destruct (make_space s n) as [ok s1] eqn:MS.
+  apply shape_make_space in MS as [pre [H1 H2 H3]].
+  destruct ok; intros H; inversion H; subst; clear H; exists pre; constructor; simpl; auto.
+Qed.
+
+Lemma shape_write_tmp s h m s' r : write_tmp s h m = (s', r) -> trans_ev s s' [].
+Proof.
+  unfold write_tmp. destruct (hlookup h (handles s)); intros H; inversion H; subst; apply trans_ev_same; auto.
+Qed.
+
+Lemma shape_abandon s h s' r : abandon s h = (s', r) -> trans_ev s s' [].
+Proof.
+  unfold abandon. destruct (hlookup h (handles s)); intros H; inversion H; subst; apply trans_ev_same; auto.
+Qed.
+
+Lemma shape_commit s h s' r t : inv s -> commit s h = (s', r, t) ->
+  (exists pre, trans_ev s s' pre) \/
+  exists hd pre newi newf, hlookup h (handles s) = Some hd /\
+    trans_k s s' (h_key hd) pre newi newf /\ cons s s' newi newf.
+Proof.
+  intros Hi. unfold commit. destruct (hlookup h (handles s)) as [hd|] eqn:E.
+  2:{ intros H; inversion H; subst. left. exists []. apply trans_ev_same; auto. }
+  cbv zeta. pose proof (inv_release s h hd Hi E) as H1.
+  destruct (make_space _ _) as [ok s2] eqn:MS.
+  pose proof MS as MS2. apply inv_make_space in MS2 as [H2 Hb]; auto.
+  destruct ok.
+  2:{ intros H; inversion H; subst; clear H. left.
+      apply shape_make_space in MS as [pre [T1 T2 T3]]. exists pre. constructor; auto. }
+  apply make_space_spec in MS as (pre & idx' & m' & -> & Hidx & _). simpl in *.
+  rewrite lru_insert_inv_eq; [|apply inv_tick, inv_set_files; exact H2 | simpl; apply Hb; auto].
+  simpl. intros H; inversion H; subst; clear H. right.
+  exists hd, (aremove (h_key hd) pre), (Some (h_written hd)), (Some (h_written hd, clock s + 1)).
+  split; auto. split; [|simpl; auto]. constructor; simpl.
+  - exists (aremove (h_key hd) idx'). rewrite Hidx, aremove_app. auto.
+  - apply alookup_ains_eq.
+  - intros k' Hk. rewrite keys_aremove. rewrite alookup_ains_neq by auto. split; intros Hin.
+    + apply alookup_rmkeys_in; tauto.
+    + apply alookup_rmkeys_notin; tauto.
+  - lia.
+Qed.
+
+Lemma shape_get s k s' r t : get s k = (s', r, t) ->
+  trans_ev s s' [] \/
+  exists newi newf, trans_k s s' k [] newi newf /\ (dagree s -> cons s s' newi newf).
+Proof.
+  unfold get, lru_get. destruct (alookup k (index s)) as [sz|] eqn:E.
+  2:{ intros H; inversion H; subst. left. apply trans_ev_same; auto. }
+  simpl. destruct (alookup k (files s)) as [[fsz mt]|] eqn:F; intros H; inversion H; subst; clear H; right.
+  - exists (Some sz), (Some (fsz, clock s + 1)). split.
+    + constructor; simpl.
+      * exists (aremove k (index s)). auto.
+      * apply alookup_ains_eq.
+      * intros k' Hk. split; [tauto|]. intros _. apply alookup_ains_neq; auto.
+      * lia.
+    + intros Hd. apply Hd in E as [mt' E]. rewrite E in F. inversion F; subst. simpl; auto.
+  - exists (Some sz), None. split.
+    + constructor; simpl.
+      * exists (aremove k (index s)). auto.
+      * exact F.
+      * intros k' Hk. tauto.
+      * lia.
+    + intros Hd. apply Hd in E as [mt' E]. rewrite E in F. discriminate.
+Qed.
+
+Lemma shape_remove s k s' r : remove s k = (s', r) ->
+  trans_ev s s' [] \/ trans_k s s' k [] None None.
+Proof.
+  unfold remove. destruct (alookup k (index s)) as [sz|] eqn:E.
+  2:{ intros H; inversion H; subst. left. apply trans_ev_same; auto. }
+  cbv zeta. destruct (lru_remove_eq s k) as [m1 E1]. rewrite E1. simpl.
+  destruct (alookup k (files s)) as [[fsz mt]|] eqn:F; intros H; inversion H; subst; clear H; right;
+    constructor; simpl.
+  - exists (aremove k (index s)). rewrite app_nil_r; auto.
+  - apply alookup_aremove_eq.
+  - intros k' Hk. split; [tauto|]. intros _. apply alookup_aremove_neq; auto.
+  - lia.
+  - exists (aremove k (index s)). rewrite app_nil_r; auto.
+  - exact F.
+  - intros k' Hk. tauto.
+  - lia.
+Qed.
+
+Definition op_key (s : st) (o : op) : option key :=
+  match o with
+  | InsertBytes k _ | InsertWith k _ _ | InsertFile k _ | Get k | Remove k => Some k
+  | Commit h => match hlookup h (handles s) with Some hd => Some (h_key hd) | None => None end
+  | _ => None
+  end.
+
+Definition plain_op (o : op) : Prop :=
+  match o with ExternalDelete _ | Reopen _ => False | _ => True end.
+
+Lemma step_shape s o : inv s -> plain_op o ->
+  (exists pre, trans_ev s (fst (step s o)) pre) \/
+  (exists k pre newi newf, op_key s o = Some k /\ trans_k s (fst (step s o)) k pre newi newf /\
+     (dagree s -> cons s (fst (step s o)) newi newf)).
+Proof.
+  intros Hi Hp. destruct o; simpl in *; try tauto.
+  - destruct (insert_by s k (Some n) n false) as [[s' r] t] eqn:E. simpl.
+    apply shape_insert_by in E as [E|(pre & ni & nf & E1 & E2)]; eauto 10.
+  - destruct (insert_by s k None n fail) as [[s' r] t] eqn:E. simpl.
+    apply shape_insert_by in E as [E|(pre & ni & nf & E1 & E2)]; eauto 10.
+  - destruct (insert_by s k (Some n) n false) as [[s' r] t] eqn:E. simpl.
+    apply shape_insert_by in E as [E|(pre & ni & nf & E1 & E2)]; eauto 10.
+  - destruct (prepare_add s k n) as [s' r] eqn:E. simpl. apply shape_prepare_add in E. auto.
+  - destruct (write_tmp s h m) as [s' r] eqn:E. simpl. apply shape_write_tmp in E. eauto.
+  - destruct (commit s h) as [[s' r] t] eqn:E. simpl.
+    apply shape_commit in E as [E|(hd & pre & ni & nf & E0 & E1 & E2)]; auto.
+    right. exists (h_key hd), pre, ni, nf. rewrite E0. auto.
+  - destruct (abandon s h) as [s' r] eqn:E. simpl. apply shape_abandon in E. eauto.
+  - destruct (get s k) as [[s' r] t] eqn:E. simpl.
+    apply shape_get in E as [E|(ni & nf & E1 & E2)]; eauto 10.
+  - destruct (remove s k) as [s' r] eqn:E. simpl.
+    apply shape_remove in E as [E|E]; eauto. right. exists k, [], None, None. simpl; auto.
+  - left. exists []. apply trans_ev_same; auto.
+Qed.
+
+(* ====================================================================== *)
+(* E. disk invariants from the shapes                                      *)
+(* ====================================================================== *)
+
+Definition mtof (fs : list (key * (N * N))) (k : key) : N :=
+  match alookup k fs with Some (_, mt) => mt | None => 0 end.
+
+(* strictly ascending *)
+Fixpoint ssorted (l : list N) : Prop :=
+  match l with [] => True | x :: r => Forall (N.lt x) r /\ ssorted r end.
+
+Lemma ssorted_app a b :
+  ssorted (a ++ b) <-> ssorted a /\ ssorted b /\ (forall x y, In x a -> In y b -> x < y).
+Proof.
+  induction a as [|x a IH]; simpl.
+  - intuition.
+  - rewrite IH, Forall_app, !Forall_forall. split.
+    + intros ((H1 & H2) & H3 & H4 & H5). repeat split; auto. intros x0 y [->|Hx] Hy; auto.
+    + intros ((H1 & H2) & H3 & H4). repeat split; auto.
+Qed.
+
+Lemma ssorted_keys_aremove (f : key -> N) k (l : list (key * N)) :
+  ssorted (map f (keys l)) -> ssorted (map f (keys (aremove k l))).
+Proof.
+  induction l as [|[k2 v] r IH]; simpl; auto. intros [H1 H2]. destruct (bytes_eqb k k2); simpl; auto.
+  split; auto. rewrite Forall_forall in *. intros x Hx. apply H1. rewrite in_map_iff in *.
+  destruct Hx as (k' & <- & Hk'). exists k'; split; auto. apply keys_aremove in Hk'. tauto.
+Qed.
+
+(* all file mtimes are in the past *)
+Definition mt_le (s : st) : Prop :=
+  forall k sz mt, alookup k (files s) = Some (sz, mt) -> mt <= clock s.
+(* mtimes are distinct *)
+Definition mt_inj (s : st) : Prop :=
+  forall k1 k2 sz1 sz2 mt, alookup k1 (files s) = Some (sz1, mt) -> alookup k2 (files s) = Some (sz2, mt) -> k1 = k2.
+(* index order = strictly ascending mtime order of the entry files *)
+Definition ord (s : st) : Prop := ssorted (map (mtof (files s)) (keys (index s))).
+
+Definition disk_ok (s : st) : Prop := dagree s /\ mt_le s /\ mt_inj s /\ ord s.
+
+Lemma tk_index s s' k pre newi newf :
+  NoDup (keys (index s)) -> trans_k s s' k pre newi newf ->
+  alookup k (index s') = newi /\
+  forall k', k' <> k ->
+    (In k' (keys pre) -> alookup k' (index s') = None) /\
+    (~ In k' (keys pre) -> alookup k' (index s') = alookup k' (index s)).
+Proof.
+  intros Hnd [(rest & R1 & R2) _ _ _].
+  assert (Hnd' : NoDup (keys (pre ++ rest))) by (rewrite <- R1; apply NoDup_aremove; auto).
+  assert (Hk : alookup k (pre ++ rest) = None) by (rewrite <- R1; apply alookup_aremove_eq).
+  apply alookup_app_None in Hk as [Hk1 Hk2]. rewrite R2. split.
+  - rewrite alookup_app, Hk2. destruct newi; simpl; auto. rewrite bytes_eqb_refl; auto.
+  - intros k' Hne. assert (Hn : alookup k' (newpart k newi) = None).
+    { destruct newi; simpl; auto. destruct (bytes_eqb k' k) eqn:E; auto. apply bytes_eqb_eq in E; tauto. }
+    rewrite alookup_app, Hn. split; intros Hin.
+    + rewrite (alookup_app_None_r k' pre rest); auto.
+    + rewrite <- (alookup_aremove_neq k k' (index s)) by auto. rewrite R1, alookup_app_r by auto.
+      destruct (alookup k' rest); auto.
+Qed.
+
+Lemma tk_rest_keys s k pre rest :
+  NoDup (keys (index s)) -> aremove k (index s) = pre ++ rest ->
+  forall k', In k' (keys rest) -> k' <> k /\ ~ In k' (keys pre).
+Proof.
+  intros Hnd R1 k' Hin.
+  assert (Hnd' : NoDup (keys (pre ++ rest))) by (rewrite <- R1; apply NoDup_aremove; auto).
+  assert (Hk : alookup k (pre ++ rest) = None) by (rewrite <- R1; apply alookup_aremove_eq).
+  apply alookup_app_None in Hk as [Hk1 Hk2]. split.
+  - intros ->. apply alookup_None in Hk2. tauto.
+  - intros Hp. rewrite keys_app in Hnd'. eapply NoDup_app_disj; eauto.
+Qed.
+
+Lemma mtof_le s k : mt_le s -> mtof (files s) k <= clock s.
+Proof. intros H. unfold mtof. destruct (alookup k (files s)) as [[sz mt]|] eqn:E; [eapply H; eauto | lia]. Qed.
+
+Lemma disk_ok_trans_k s s' k pre newi newf :
+  NoDup (keys (index s)) -> disk_ok s -> trans_k s s' k pre newi newf -> cons s s' newi newf -> disk_ok s'.
+Proof.
+  intros Hnd (Hd & Hle & Hinj & Ho) T Hc.
+  destruct (tk_index _ _ _ _ _ _ Hnd T) as [Ik Io]. destruct T as [(rest & R1 & R2) Fk Fo Ck].
+  assert (Fold : forall k0 v, k0 <> k -> alookup k0 (files s') = Some v -> alookup k0 (files s) = Some v).
+  { intros k0 v Hne H. destruct (in_dec key_eq_dec k0 (keys pre)) as [Hin|Hin].
+    - rewrite (proj1 (Fo k0 Hne) Hin) in H; discriminate.
+    - rewrite (proj2 (Fo k0 Hne) Hin) in H; auto. }
+  assert (Fnew : forall sz mt, alookup k (files s') = Some (sz, mt) -> mt = clock s + 1 /\ clock s' = clock s + 1).
+  { intros sz mt H. rewrite Fk in H. rewrite H in Hc. destruct newi; cbv beta iota delta [cons] in Hc; tauto. }
+  split; [|split; [|split]].
+  - intros k0 sz0. destruct (key_eq_dec k0 k) as [->|Hne].
+    + rewrite Ik, Fk. destruct newi as [a|], newf as [[b mt]|]; cbv beta iota delta [cons] in Hc; try tauto.
+      * destruct Hc as (-> & -> & _). split; [intros H; inversion H; subst; eauto | intros [mt H]; inversion H; auto].
+      * split; [discriminate | intros [mt H]; discriminate].
+    + destruct (in_dec key_eq_dec k0 (keys pre)) as [Hin|Hin].
+      * rewrite (proj1 (Io k0 Hne) Hin), (proj1 (Fo k0 Hne) Hin). split; [discriminate | intros [mt H]; discriminate].
+      * rewrite (proj2 (Io k0 Hne) Hin), (proj2 (Fo k0 Hne) Hin). apply Hd.
+  - intros k0 sz0 mt0 H. destruct (key_eq_dec k0 k) as [->|Hne].
+    + apply Fnew in H. lia.
+    + apply Fold in H; auto. apply Hle in H. lia.
+  - intros k1 k2 sz1 sz2 mt H1 H2.
+    destruct (key_eq_dec k1 k) as [->|Hn1], (key_eq_dec k2 k) as [->|Hn2]; auto.
+    + apply Fnew in H1. apply Fold in H2; auto. apply Hle in H2. lia.
+    + apply Fnew in H2. apply Fold in H1; auto. apply Hle in H1. lia.
+    + apply Fold in H1, H2; auto. eapply Hinj; eauto.
+  - unfold ord. rewrite R2, keys_app, map_app.
+    assert (Hext : map (mtof (files s')) (keys rest) = map (mtof (files s)) (keys rest)).
+    { apply map_ext_in. intros k0 Hin. destruct (tk_rest_keys s k pre rest Hnd R1 k0 Hin) as [Hne Hnp].
+      unfold mtof. rewrite (proj2 (Fo k0 Hne) Hnp). auto. }
+    rewrite Hext. apply ssorted_app. split; [|split].
+    + unfold ord in Ho. apply (ssorted_keys_aremove _ k) in Ho. rewrite R1, keys_app, map_app in Ho.
+      apply ssorted_app in Ho. tauto.
+    + destruct newi; simpl; auto.
+    + intros x y Hx Hy. destruct newi as [a|]; simpl in Hy; [|tauto]. destruct Hy as [<-|[]].
+      destruct newf as [[b mt]|]; cbv beta iota delta [cons] in Hc; [|tauto]. destruct Hc as (_ & -> & _).
+      unfold mtof at 1. rewrite Fk. apply in_map_iff in Hx as (k0 & <- & _).
+      pose proof (mtof_le s k0 Hle). lia.
+Qed.
+
+Lemma disk_ok_trans_ev s s' pre :
+  NoDup (keys (index s)) -> disk_ok s -> trans_ev s s' pre -> disk_ok s'.
+Proof.
+  intros Hnd (Hd & Hle & Hinj & Ho) [R Fo Ck]. rewrite R in Hnd.
+  assert (Fold : forall k0 v, alookup k0 (files s') = Some v -> alookup k0 (files s) = Some v).
+  { intros k0 v H. destruct (in_dec key_eq_dec k0 (keys pre)) as [Hin|Hin].
+    - rewrite (proj1 (Fo k0) Hin) in H; discriminate.
+    - rewrite (proj2 (Fo k0) Hin) in H; auto. }
+  split; [|split; [|split]].
+  - intros k0 sz0. destruct (in_dec key_eq_dec k0 (keys pre)) as [Hin|Hin].
+    + pose proof (alookup_app_None_r k0 pre (index s') Hnd Hin) as E1.
+      pose proof (proj1 (Fo k0) Hin) as E2. rewrite E1, E2.
+      split; [discriminate | intros [mt H]; discriminate].
+    + rewrite (proj2 (Fo k0) Hin). etransitivity; [|apply Hd]. rewrite R, alookup_app_r by auto. tauto.
+  - intros k0 sz0 mt0 H. apply Fold, Hle in H. lia.
+  - intros k1 k2 sz1 sz2 mt H1 H2. apply Fold in H1, H2. eapply Hinj; eauto.
+  - unfold ord in *. rewrite R, keys_app, map_app in Ho. apply ssorted_app in Ho as (_ & Ho & _).
+    erewrite map_ext_in; [exact Ho|]. intros k0 Hin. unfold mtof. rewrite (proj2 (Fo k0)); auto.
+    intros Hp. rewrite keys_app in Hnd. eapply NoDup_app_disj; eauto.
+Qed.
+
+Lemma step_disk_ok s o : inv s -> disk_ok s -> plain_op o -> disk_ok (fst (step s o)).
+Proof.
+  intros Hi Hd Hp. pose proof Hi as [(_ & _ & Hnd & _) _].
+  destruct (step_shape s o Hi Hp) as [[pre T]|(k & pre & ni & nf & _ & T & Hc)].
+  - eapply disk_ok_trans_ev; eauto.
+  - eapply disk_ok_trans_k; eauto. apply Hc, Hd.
+Qed.
+
+(* ---------- the directory listing stays strictly sorted by key ---------- *)
+
+Fixpoint ksorted {V} (l : list (key * V)) : Prop :=
+  match l with
+  | [] => True
+  | (k, _) :: r => (forall k', In k' (keys r) -> bytes_ltb k k' = true) /\ ksorted r
+  end.
+
+Lemma bytes_ltb_irrefl a : bytes_ltb a a = false.
+Proof. induction a; simpl; auto. rewrite N.ltb_irrefl. auto. Qed.
+
+Lemma bytes_ltb_trans : forall a b c,
+  bytes_ltb a b = true -> bytes_ltb b c = true -> bytes_ltb a c = true.
+Proof.
+  induction a as [|x a IH]; intros [|y b] [|z c]; simpl; auto; try discriminate.
+  destruct (x <? y) eqn:E1, (y <? x) eqn:E2, (y <? z) eqn:E3, (z <? y) eqn:E4,
+           (x <? z) eqn:E5, (z <? x) eqn:E6; intros H1 H2; auto; try discriminate; try lia.
+  eapply IH; eauto.
+Qed.
+
+Lemma bytes_ltb_total : forall a b,
+  bytes_eqb a b = false -> bytes_ltb a b = false -> bytes_ltb b a = true.
+Proof.
+  induction a as [|x a IH]; intros [|y b]; simpl; auto; try discriminate.
+  destruct (x <? y) eqn:E1, (y <? x) eqn:E2; intros H1 H2; auto; try discriminate.
+  assert (E : (x =? y) = true) by lia. rewrite E in H1. simpl in H1. auto.
+Qed.
+
+Lemma ksorted_NoDup {V} (l : list (key * V)) : ksorted l -> NoDup (keys l).
+Proof.
+  induction l as [|[k v] r IH]; simpl; [constructor|]. intros [H1 H2]. constructor; auto.
+  intros Hin. apply H1 in Hin. rewrite bytes_ltb_irrefl in Hin. discriminate.
+Qed.
+
+Lemma ksorted_aremove {V} k (l : list (key * V)) : ksorted l -> ksorted (aremove k l).
+Proof.
+  induction l as [|[k2 v] r IH]; simpl; auto. intros [H1 H2]. destruct (bytes_eqb k k2); simpl; auto.
+  split; auto. intros k' Hin. apply keys_aremove in Hin. apply H1; tauto.
+Qed.
+
+Lemma ksorted_rmkeys {V} ks : forall (l : list (key * V)), ksorted l -> ksorted (rmkeys ks l).
+Proof. induction ks; simpl; auto. intros l H. apply IHks, ksorted_aremove, H. Qed.
+
+Lemma keys_ains_sub {V} k (v : V) l k' : In k' (keys (ains k v l)) -> k' = k \/ In k' (keys l).
+Proof.
+  induction l as [|[k2 v2] r IH]; simpl.
+  - intuition.
+  - destruct (bytes_eqb k k2); [simpl; intuition|]. destruct (bytes_ltb k k2); simpl; [intuition|].
+    intros [H|H]; auto. apply IH in H. tauto.
+Qed.
+
+Lemma ksorted_ains {V} k (v : V) l : ksorted l -> ksorted (ains k v l).
+Proof.
+  induction l as [|[k2 v2] r IH]; simpl.
+  - intros _. split; [intros ? []|auto].
+  - intros [H1 H2]. destruct (bytes_eqb k k2) eqn:E.
+    + apply bytes_eqb_eq in E; subst. simpl. auto.
+    + destruct (bytes_ltb k k2) eqn:L.
+      * simpl. split; [|auto]. intros k' [<-|Hin]; auto. eapply bytes_ltb_trans; eauto.
+      * simpl. split; [|auto]. intros k' Hin. apply keys_ains_sub in Hin as [->|Hin]; auto.
+        apply bytes_ltb_total; auto.
+Qed.
+
+Lemma files_lru_remove s k : files (lru_remove s k) = files s.
+Proof. unfold lru_remove. destruct (alookup k (index s)); auto. Qed.
+
+Lemma files_lru_insert s k v : files (lru_insert s k v) = files s.
+Proof. unfold lru_insert. destruct (lru_trim _ _ _); auto. Qed.
+
+Lemma ks_make_space s n ok s' : ksorted (files s) -> make_space s n = (ok, s') -> ksorted (files s').
+Proof.
+  intros H MS. apply make_space_spec in MS as (pre & idx' & m' & -> & _). simpl. apply ksorted_rmkeys, H.
+Qed.
+
+Lemma ks_insert_by s k d w f s' r t : ksorted (files s) -> insert_by s k d w f = (s', r, t) -> ksorted (files s').
+Proof.
+  intros Hk. unfold insert_by.
+  destruct (match d with Some d0 => negb (d0 <=? cap s) | None => false end).
+  { intros H; inversion H; subst; auto. }
+  cbv zeta. destruct f.
+  { intros H; inversion H; subst. simpl. rewrite files_lru_remove. apply ksorted_aremove, Hk. }
+  destruct (make_space _ _) as [ok s3] eqn:MS. apply ks_make_space in MS.
+  2:{ simpl. rewrite files_lru_remove. apply ksorted_ains, Hk. }
+  destruct ok; intros H; inversion H; subst; simpl.
+  - rewrite files_lru_insert. auto.
+  - apply ksorted_aremove; auto.
+Qed.
+
+Lemma ks_step s o : ksorted (files s) -> ksorted (files (fst (step s o))).
+Proof.
+  intros Hk. destruct o; simpl; auto.
+  - destruct (insert_by s k (Some n) n false) as [[s' r] t] eqn:E. simpl. eapply ks_insert_by; eauto.
+  - destruct (insert_by s k None n fail) as [[s' r] t] eqn:E. simpl. eapply ks_insert_by; eauto.
+  - destruct (insert_by s k (Some n) n false) as [[s' r] t] eqn:E. simpl. eapply ks_insert_by; eauto.
+  - unfold prepare_add. destruct (make_space s n) as [ok s1] eqn:MS. apply ks_make_space in MS; auto.
+    destruct ok; simpl; auto.
+  - unfold write_tmp. destruct (hlookup h (handles s)); simpl; auto.
+  - unfold commit. destruct (hlookup h (handles s)) as [hd|]; simpl; auto.
+    destruct (make_space _ _) as [ok s2] eqn:MS. apply ks_make_space in MS; auto.
+    destruct ok; simpl; auto. rewrite files_lru_insert. simpl. apply ksorted_ains; auto.
+  - unfold abandon. destruct (hlookup h (handles s)); simpl; auto.
+  - unfold get, lru_get. destruct (alookup k (index s)); simpl; auto.
+    destruct (alookup k (files s)) as [[fsz mt]|]; simpl; auto. apply ksorted_ains; auto.
+  - unfold remove. destruct (alookup k (index s)); simpl; auto. rewrite files_lru_remove.
+    destruct (alookup k (files s)); simpl; rewrite ?files_lru_remove; auto. apply ksorted_aremove; auto.
+  - apply ksorted_aremove; auto.
+  - unfold reopen.
+    assert (G : forall l s0, ksorted (files s0) -> ksorted (files (fold_left init_add l s0))).
+    { induction l as [|[k [sz mt]] l IH]; simpl; auto. intros s0 H0. apply IH.
+      unfold init_add. destruct (is_temp k); [apply ksorted_aremove; auto|].
+      destruct (negb (sz <=? cap s0)); [apply ksorted_aremove; auto|].
+      destruct (make_space s0 sz) as [ok s1] eqn:MS. apply ks_make_space in MS; auto.
+      destruct ok; auto. rewrite files_lru_insert; auto. }
+    apply G. simpl. auto.
+Qed.
+
+(* the full state invariant *)
+Definition good (s : st) : Prop := inv s /\ ksorted (files s) /\ disk_ok s.
